@@ -181,23 +181,25 @@ Fixpoint chain_items (st : list stage) (src : list Z) : list Z :=
       end
   end.
 
-Inductive cres : Type :=
-| CBuilt (slots : list (option Z))
+Inductive cres (A : Type) : Type :=
+| CBuilt (slots : list (option A))
 | CPanicked.        (* in a const item: a compile error *)
+Arguments CBuilt {A}. Arguments CPanicked {A}.
 
 (** the [ComputeLength] call: the array has CAP = 0 slots and is never written;
     [@each] only does [length += 1] *)
-Definition compute_length (items : list Z) : nat := length items.
+Definition compute_length {A} (items : list A) : nat := length items.
 
 (** the [BuildArray] call: [@each] does [array[length] = item; length += 1]; an index
-    outside the array panics *)
-Fixpoint build_loop (items : list Z) (arr : list (option Z)) (len : nat) : option (list (option Z) * nat) :=
+    outside the array panics.  The item type is arbitrary (the harness uses integers, the
+    iterator-DSL theorems the DSL's universal values). *)
+Fixpoint build_loop {A} (items : list A) (arr : list (option A)) (len : nat) : option (list (option A) * nat) :=
   match items with
   | [] => Some (arr, len)
   | x :: r => if len <? length arr then build_loop r (set_nth arr len (Some x)) (S len) else None
   end.
 
-Definition build_array (cap : nat) (items : list Z) : cres :=
+Definition build_array {A} (cap : nat) (items : list A) : cres A :=
   match build_loop items (repeat None cap) 0 with
   | None => CPanicked
   | Some (arr, len) => if len =? cap then CBuilt arr else CPanicked   (* assert!(length == CAP) *)
@@ -205,5 +207,5 @@ Definition build_array (cap : nat) (items : list Z) : cres :=
 
 (** [collect_const!]: two const evaluations of the same function; [items1] / [items2] are
     what the chain yields in the first / second one *)
-Definition collect_const_m (items1 items2 : list Z) : cres :=
+Definition collect_const_m {A} (items1 items2 : list A) : cres A :=
   build_array (compute_length items1) items2.
